@@ -26,6 +26,46 @@ CHECKS = {
         "note": NOTE_COMMON + "Bounds: rev_comp every k 1..=31 (thorough) / 13 values (quick), all codes; decode k<=2 (k=3 attempted in thorough); stream k in {1,2,3,4,5,8}(+15,16,31), N=k+3.",
         "technique": TECH,
     },
+    "C03": {
+        "text": "The rank/inverse tables are produced by running the real kmer_pos_maps(k) natively on the snapshot (input-free function); for symbolic codes x, y < 4^k and "
+        "symbolic column p the solver shows against the real rev_comp: rank of the canonical form is a column, strictly increasing with the canonical code, the "
+        "inverse map is its exact inverse, every column has a canonical k-mer whose rank is the column, and the count is (4^k+4^(k/2))/2 / 4^k/2. For k = 1 the real "
+        "function is also executed inside the solver and must reproduce the native table (validates the container models). The private get_header of the CLI "
+        "crate and of the Python binding is executed for k <= 3 and every column's name compared with a compiler-evaluated oracle list, with the map model iterating "
+        "in insertion and in reversed order.",
+        "design_ref": "DESIGN.md section 3 / C03",
+        "note": NOTE_COMMON + "HashMap/HashSet are fixed-capacity association-list models under cfg(kani); `bio` is patched by a stand-in (not executed). "
+        "Bounds: tables k 1..=6 (quick) / 1..=8 (thorough); header k 1..=3; structs built directly (constructors call rayon::current_num_threads).",
+        "technique": TECH,
+    },
+    "C04": {
+        "text": "The private OligoComputer::vectorise_one is executed on every byte string up to N (symbolic length) with pos_map = the native table of the real "
+        "kmer_pos_maps(k); for a symbolic column the solver shows v[col] == count (raw) or the correctly rounded IEEE quotient count/max(1,total) (normalised) against "
+        "an oracle that counts windows through a compiler-evaluated code->column table; all-zero row without window; row bit-identical under reverse complement, "
+        "case toggle and U-for-T.",
+        "design_ref": "DESIGN.md section 3 / C04",
+        "note": NOTE_COMMON + "Bounds: k 1..=3 with N <= 5 (quick) / <= 6, k 4..=7 with N = k+1 (thorough, optional). The textual row (float formatting), batching, "
+        "threads and the CLI are outside.",
+        "technique": TECH,
+    },
+    "C06": {
+        "text": "NARROW claim: ktio's own code only. For R records (concrete lengths incl. an empty FASTA record, symbolic ids/bases/format) handed out by a stand-in for "
+        "the bio reader the solver shows Sequences::next returns each record once, in order, numbered 0,1,2,.., id and bases copied unchanged, then None, and "
+        "seq_stats = (R, sum of lengths). FASTA/FASTQ parsing, gzip (incl. multi-member) and suffix inference are NOT covered.",
+        "design_ref": "DESIGN.md section 3 / C06",
+        "note": NOTE_COMMON + "The `bio` crate does not compile under kani-compiler; a stand-in with a harness-controlled record list replaces it in Kani builds. "
+        "Counterexamples are replayed natively by serialising the records as FASTA/FASTQ text for the real bio parser.",
+        "technique": TECH,
+    },
+    "C08": {
+        "text": "KERNEL claim: the private CovComputer::vectorise_one for ANY counts table (<= 3 symbolic entries with symbolic u32 multiplicities), symbolic record, "
+        "symbolic bin size, concrete bin count: for a symbolic bin the solver shows the entry equals the number (or correctly rounded fraction) of windows whose "
+        "multiplicity c satisfies min(floor(c/bin-size), bins-1) = bin - including that the code's f64 floor-division equals the integer quotient.",
+        "design_ref": "DESIGN.md section 3 / C08",
+        "note": NOTE_COMMON + "Integer quotient in the oracle = fresh variable constrained by the division lemma. Bounds: k in {2,3}, N <= 5, bin size <= 2^8 in core "
+        "instances (2^16, 2^32 optional). build_table, row order, batching/flush, threads and formatting are outside.",
+        "technique": TECH,
+    },
     "C09": {
         "text": "For each (w,m) in the bound table and each length L, for every byte string of that length the solver shows the real MinimiserGenerator emits exactly "
         "the oracle's maximal runs (minimiser, start, end), left to right, and nothing else (no placeholder). Found two genuine defects on the original tree "
@@ -34,6 +74,55 @@ CHECKS = {
         "note": NOTE_COMMON + "std VecDeque is replaced under cfg(kani) by a fixed-capacity ring model (capacity overflow is a reported failure); "
         "per-loop unwind bounds for the `for j in 0..buff.len()` loops are discovered from the goto binary, unwinding assertions stay on. "
         "Bounds: (w,m) in {(1,1),(2,1),(2,2),(3,2),(3,3),(4,2),(5,3)}, L = 0..=w+3 (quick); + (4,1),(6,3),(6,5),(8,5),(31,31),(32,31) (thorough).",
+        "technique": TECH,
+    },
+    "C11": {
+        "text": "cgr_maps and the private CgrComputer::vectorise_one are executed for symbolic square size 1..=2^20 and every byte string (all 256 values) of each "
+        "length: Ok iff all bytes are ACGTU letters; each point is bit-exactly the midpoint of the previous point and the base's corner (corner table from the "
+        "property), with an exactness witness, inside the square and inside the sub-squares of its last one and two bases; prefix determinism by a second run on the prefix.",
+        "design_ref": "DESIGN.md section 3 / C11",
+        "note": NOTE_COMMON + "Bounds: lengths 0..=3 (quick) / 0..=6 (thorough). The batch/file path and float formatting are outside.",
+        "technique": TECH,
+    },
+    "C12": {
+        "text": "The private OligoCgrComputer::vectorise_one/seq_to_kmer/cgr_maps are executed (struct built as `new` builds it, from the native tables): for a symbolic "
+        "column, (x,y) is bit-exactly the chaos-game end point of the column's k-mer text (oracle list evaluated by the compiler) for symbolic square size, f equals "
+        "the oracle's count or correctly rounded count/total, and (x,y) is equal across two different records.",
+        "design_ref": "DESIGN.md section 3 / C12",
+        "note": NOTE_COMMON + "Bounds: k = 1 all lengths 0..=3, k = 2 length 3 (quick); k <= 3 lengths 0..=k+3 (thorough, k >= 2 optional). Row order/threads/batching outside.",
+        "technique": TECH,
+    },
+    "C13": {
+        "text": "The Rust bodies of the #[pymethods] are executed and compared with the core: oligo vector bit-equal to composition's vectorise_one for strings of symbolic "
+        "ASCII and two-byte UTF-8 characters; CGR accepts/rejects exactly like the core (non-ASCII must be rejected) with bit-equal points; header equal; the k-mer and "
+        "minimiser iterators yield the core iterators' items after the String is consumed and the object moved twice (Arc-backed lifetime extension checked by "
+        "Kani's pointer checks).",
+        "design_ref": "DESIGN.md section 3 / C13",
+        "note": NOTE_COMMON + "pyo3's PyValueError::new_err is stubbed (kani-compiler crashes on it); only is_err() is inspected. Everything that needs a live "
+        "interpreter, vectorise_batch (rayon) and module registration are outside.",
+        "technique": TECH,
+    },
+    "C14": {
+        "text": "(a) safety-only runs of the private accumulators of oligo / oligocgr / coverage with the native tables: Kani's pointer checks decide every "
+        "get_unchecked(_mut) for all records in the bounds; every pos_map entry < kcount for k <= 7(8); (b) MMWriter::write_at writes exactly the given bytes and "
+        "nothing else iff pos+len <= capacity (and is shown NOT to bounds-check the tail); (c) the offset arithmetic of vectorise_mmap, extracted from the current "
+        "source text, tiles the file exactly for symbolic record counts/numbers, delimiter lengths 0..7, header on/off. Found the genuine delimiter-length defect "
+        "(fixed by a fix: commit).",
+        "design_ref": "DESIGN.md section 3 / C14",
+        "note": NOTE_COMMON + "(c) rests on a row-length model (each value is NUMBER_SIZE characters) guarded syntactically: if the value formatting or row assembly "
+        "in vectorise_mmap changes shape the check is inconclusive. Counterexamples of (c) are replayed end-to-end through the public OligoComputer API on real "
+        "files. The partition index in counter::count_chunk and thread schedules are outside.",
+        "technique": TECH,
+    },
+    "C18": {
+        "text": "Two complementary encodings of the real KmerMinimiserGenerator. Whole-run: for each (w,m) and length the solver shows item-by-item equality with the "
+        "plain MinimiserGenerator and that the concatenated k-mer lists are exactly the canonical w-mers of the valid windows in order (also against the real "
+        "KmerGenerator). Inductive step for clause (1): from ANY pair of states agreeing on the shared fields and satisfying a validity invariant (proved inductive, "
+        "base case included) one next() of each yields the same run and agreeing states - covering call histories of any length for sequences up to N.",
+        "design_ref": "DESIGN.md section 3 / C18",
+        "note": NOTE_COMMON + "VecDeque ring model and a fixed-capacity Vec model for the per-run k-mer list (one added import line in kmer_minimisers.rs) under "
+        "cfg(kani). Bounds: whole-run (w,m) in {(2,1),(2,2),(3,2),(3,3)} L <= w+1 (quick) / w+2, more pairs optional (thorough); step (w,m,N) up to (4,2,7) quick, "
+        "up to (31,31,33) thorough.",
         "technique": TECH,
     },
 }
@@ -49,7 +138,7 @@ NOT_APPLICABLE = {
 
 # properties whose checks are not built yet are listed as not applicable *for now* with that reason
 NOT_BUILT = "check not built yet in this round (planned, see DESIGN.md section 3)"
-for _p in ("C03", "C04", "C06", "C08", "C11", "C12", "C13", "C14", "C18"):
+for _p in ():
     NOT_APPLICABLE.setdefault(_p, NOT_BUILT)
 
 NOTES = (
